@@ -4,8 +4,8 @@
 # Scratch: /tmp/mut-wt (git worktree of /repo HEAD + patch), /tmp/mut-harness (copy of /verif/harness pointing at it).
 set -u
 PATCH=$(readlink -f "$1"); shift
-WT=/tmp/mut-wt
-MH=/tmp/mut-harness
+WT=${MUT:-/tmp/mut}-wt
+MH=${MUT:-/tmp/mut}-harness
 TIER=${TIER:-quick}
 git -C /repo worktree remove --force $WT >/dev/null 2>&1
 rm -rf $WT
